@@ -517,6 +517,38 @@ func (s *seqState) cmpIter(op *Op, res *Result) {
 		}
 		return props
 	}
+	if op.D > 0 {
+		// early exit: the first min(D, n) entries, each a visible entry, none twice
+		m.Probes["iterator-early-exit"]++
+		n := len(want)
+		if int(op.D) < n {
+			n = int(op.D)
+		}
+		if len(res.Entries) != n {
+			m.fail(props, "iter."+op.Kind+"-count", -1, "%s with early exit after %d yielded %d entries, %d are visible", op.Kind, op.D, len(res.Entries), len(want))
+		}
+		for _, e := range res.Entries {
+			if op.Kind == "values" {
+				found := false
+				for _, k := range want {
+					if m.m[k].V == e.V {
+						found = true
+					}
+				}
+				if !found || seenV[e.V] > 1 {
+					m.fail(props, "iter.values", -1, "Values yielded %d (x%d) which is not a visible value", e.V, seenV[e.V])
+				}
+				continue
+			}
+			me := m.visible(e.K)
+			if me == nil || seenK[e.K] > 1 {
+				m.fail(leak(e.K), "iter."+op.Kind+"-extra", e.K, "%s yielded key %d (x%d) which the model does not hold", op.Kind, e.K, seenK[e.K])
+			} else if op.Kind == "all" && e.V != me.V {
+				m.fail(props, "iter.all-value", e.K, "All yielded %d=%d, model %d", e.K, e.V, me.V)
+			}
+		}
+		return
+	}
 	if op.Kind == "values" {
 		wantV := map[int]int{}
 		for _, k := range want {
